@@ -1,4 +1,6 @@
 """C06 — size mismatches are always detected; consistent sizes are never rejected."""
+import json
+
 import exprs as E
 import hier as H
 import lib
@@ -58,7 +60,16 @@ def redeclare(rng, r):
                 owner, pname = par, src[0]
             sp = next((p for p in (owner["ports"] if owner else []) if p["name"] == pname), None)
             # only a port whose size is declared right there (a leaf's output, or an input of the root)
-            if sp is not None and ((owner is not par and not owner["children"]) or (owner is par and par is r)):
+            def still_used(own, port):
+                # the port's present size symbol is read elsewhere in its owner's scope (a local variable, a link source, a
+                # resource, another port): re-declaring the port would leave that symbol undeclared
+                if not (port["size"] and port["size"][0] == "s"):
+                    return False
+                sym = port["size"][1]
+                rest = dict(own, ports=[q for q in own["ports"] if q is not port], children=[])
+                text = json.dumps(rest)
+                return json.dumps(["s", sym]) in text or any(src == sym for src, _ in own["linked_params"])
+            if sp is not None and not still_used(owner, sp) and ((owner is not par and not owner["children"]) or (owner is par and par is r)):
                 cst = E.num(rng.randint(1, 3))
                 sp["size"] = cst
                 first["size"] = cst
@@ -143,7 +154,7 @@ def shared_name_partial_link(rng, r):
 def gen_cases(rng, n, max_depth):
     out = []
     while len(out) < n:
-        r = H.gen_hierarchy(rng, max_depth=rng.randint(1, max_depth), p_rep=0.0, qubits=True, p_through=0.2)   # no repetitions: their own compile errors are not about sizes
+        r = H.gen_hierarchy(rng, max_depth=rng.randint(1, max_depth), p_rep=0.0, qubits=True, p_through=0.2, p_constrain=0)   # no repetitions: their own compile errors are not about sizes
         if H.count_nodes(r) > 9 or H.count_nodes(r) < 2:
             continue
         if rng.random() < 0.12 and shared_name_partial_link(rng, r):
